@@ -123,6 +123,9 @@ func TestAlignedTickerValues(t *testing.T) {
 		bigJump := false
 		stepwise := true
 		nsteps := rapid.IntRange(1, 12).Draw(t, "steps")
+		if rapid.IntRange(0, 7).Draw(t, "long-run") == 0 {
+			nsteps = rapid.SampledFrom([]int{17, 18, 34, 70, 130}).Draw(t, "many-steps") // a ticker that has been running for a while
+		}
 		for i := 0; i < nsteps; i++ {
 			kind := rapid.IntRange(0, 3).Draw(t, "advance")
 			readNow := rapid.IntRange(0, 3).Draw(t, "consumer-reads") != 0
@@ -294,6 +297,9 @@ func TestAlignedFlusher(t *testing.T) {
 		go func() { fl.Run(ctx); close(done) }()
 		defer func() { cancel(); <-done }()
 		n := rapid.IntRange(1, 8).Draw(t, "flushes")
+		if rapid.IntRange(0, 7).Draw(t, "long-run") == 0 {
+			n = rapid.SampledFrom([]int{17, 18, 34, 70}).Draw(t, "many-flushes") // a flusher that has been running for a while
+		}
 		for i := 0; i < n; i++ {
 			if !waitTimers(clck, 1) {
 				vt.Fail(t, "C18:ticker-never-armed", "flusher's aligned ticker did not arm within 30s")
